@@ -46,7 +46,12 @@ var opNames = []string{"fetch", "publish", "put-fresh", "put-older", "put-base-e
 	"publish-base-only",
 	// the caller changes its mind about cache errors between two fetches on the
 	// same fetcher object (the option is an exported field)
-	"flip-discard"}
+	"flip-discard",
+	// the publisher is late: from now on (until the next publication) the base
+	// location / the first advertised plain-HTTP delta location serves a list
+	// whose next-update has passed. Fetching is not judging: it is downloaded,
+	// returned and written to the cache like any other
+	"stale-base", "stale-first-delta"}
 
 var faultKinds = []string{"error", "404", "garbage", "non-crl-der"}
 
@@ -108,6 +113,18 @@ func advertisedIdx(shape string) (u []int, malformed bool) {
 		return nil, true
 	}
 	return nil, false
+}
+
+// firstHTTP returns the index of the first advertised plain-HTTP delta
+// location of a shape (-1: none).
+func firstHTTP(shape string) int {
+	u, _ := advertisedIdx(shape)
+	for _, k := range u {
+		if k >= 0 {
+			return k
+		}
+	}
+	return -1
 }
 
 // advertised returns the delta locations the shape advertises.
@@ -220,6 +237,8 @@ type model struct {
 	version            int
 	dlag               int // versions the delta locations lag behind the base
 	discard            bool
+	staleBase          bool
+	staleFirst         bool
 	cache              *entry
 	getFault, setFault bool
 	baseFault          bool
@@ -255,24 +274,38 @@ func (m *model) fetch() prediction {
 		return prediction{err: true, log: log}
 	}
 	v := int64(10 * m.version)
+	baseFresh, deltaFresh := true, true
+	if m.staleBase {
+		baseFresh = false
+	}
 	delta := int64(-1)
 	if len(u) > 0 {
 		found := false
+		first := true
 		for _, k := range u {
 			if k < 0 {
 				continue // not plain HTTP: fails without a request
 			}
+			isFirst := first
+			first = false
 			log = append(log, "GET "+deltaURL(k))
 			if m.deltaFault[k] {
 				m.deltaFault[k] = false
 				continue
 			}
 			delta, found = v-int64(10*m.dlag)+1, true
+			if isFirst && m.staleFirst {
+				delta += 5
+				deltaFresh = false
+			}
 			break
 		}
 		if !found {
 			return prediction{err: true, log: log}
 		}
+	}
+	if m.staleBase {
+		v += 5
 	}
 	if m.c.Cache {
 		log = append(log, "cache-set")
@@ -282,7 +315,7 @@ func (m *model) fetch() prediction {
 				return prediction{err: true, log: log}
 			}
 		} else {
-			m.cache = &entry{base: v, delta: delta, baseFresh: true, deltaFresh: true}
+			m.cache = &entry{base: v, delta: delta, baseFresh: baseFresh, deltaFresh: deltaFresh}
 		}
 	}
 	return prediction{base: v, delta: delta, log: log}
@@ -297,6 +330,8 @@ type world struct {
 	fetcher    *crl.HTTPFetcher
 	version    int
 	dlag       int
+	staleBase  bool
+	staleFirst bool
 	baseFault  string
 	deltaFault [3]string
 }
@@ -308,7 +343,11 @@ func newWorld(c *Case) *world {
 			w.baseFault = ""
 			return faultReply(f)
 		}
-		der, _ := crlFor(c.Shape, "base", w.version, "fresh")
+		variant := "fresh"
+		if w.staleBase {
+			variant = "expired"
+		}
+		der, _ := crlFor(c.Shape, "base", w.version, variant)
 		return netsim.Reply{Body: der, Class: "base"}
 	})
 	for j := 0; j < 3; j++ {
@@ -318,7 +357,11 @@ func newWorld(c *Case) *world {
 				w.deltaFault[j] = ""
 				return faultReply(f)
 			}
-			der, _ := crlFor(c.Shape, "delta", w.version-w.dlag, "fresh")
+			variant := "fresh"
+			if w.staleFirst && j == firstHTTP(c.Shape) {
+				variant = "expired"
+			}
+			der, _ := crlFor(c.Shape, "delta", w.version-w.dlag, variant)
 			return netsim.Reply{Body: der, Class: "delta"}
 		})
 	}
@@ -393,6 +436,11 @@ func step(w *world, m *model, idx, op int) (string, string) {
 		w.version++
 		m.version++
 		w.dlag, m.dlag = 0, 0
+		w.staleBase, m.staleBase, w.staleFirst, m.staleFirst = false, false, false, false
+	case "stale-base":
+		w.staleBase, m.staleBase = true, true
+	case "stale-first-delta":
+		w.staleFirst, m.staleFirst = true, true
 	case "publish-base-only":
 		w.version++
 		m.version++
